@@ -16,8 +16,8 @@ pub fn run_configs(prop: &str, tier: crate::registry::Tier, cfgs: Vec<Config>, w
     let nthreads = std::thread::available_parallelism().map(|n| n.get()).unwrap_or(4).min(16).min(cfgs.len().max(1));
     // what every thread is executing right now: (configuration, history, since when) -- an operation of the subject that never returns
     // would otherwise hang the whole run (the subject runs in-process here)
-    struct Slot { cfg: usize, hist: Vec<usize>, since: Instant, active: bool }
-    let slots: Vec<std::sync::Arc<std::sync::Mutex<Slot>>> = (0..nthreads).map(|_| std::sync::Arc::new(std::sync::Mutex::new(Slot { cfg: 0, hist: Vec::new(), since: Instant::now(), active: false }))).collect();
+    struct Slot { cfg: usize, hist: Vec<usize>, since: Instant, cpu0: f64, active: bool }
+    let slots: Vec<std::sync::Arc<std::sync::Mutex<Slot>>> = (0..nthreads).map(|_| std::sync::Arc::new(std::sync::Mutex::new(Slot { cfg: 0, hist: Vec::new(), since: Instant::now(), cpu0: 0.0, active: false }))).collect();
     let hang_after = std::time::Duration::from_secs(std::env::var("VH_SEQ_HANG_S").ok().and_then(|s| s.parse().ok()).unwrap_or(60));
     let mut handles = Vec::new();
     for t in 0..nthreads {
@@ -25,7 +25,7 @@ pub fn run_configs(prop: &str, tier: crate::registry::Tier, cfgs: Vec<Config>, w
         handles.push(std::thread::Builder::new().stack_size(8 << 20).spawn(move || {
             loop {
                 let Some(i) = queue.lock().unwrap().pop_front() else { break };
-                let r = explore_with(&cfgs[i], deadline, max_states, |h| { let mut s = slot.lock().unwrap(); s.cfg = i; s.hist = h.to_vec(); s.since = Instant::now(); s.active = true; });
+                let r = explore_with(&cfgs[i], deadline, max_states, |h| { let mut s = slot.lock().unwrap(); s.cfg = i; s.hist = h.to_vec(); s.since = Instant::now(); s.cpu0 = crate::master::cpu_seconds(); s.active = true; });
                 slot.lock().unwrap().active = false;
                 results.lock().unwrap().push((i, r));
             }
@@ -38,7 +38,8 @@ pub fn run_configs(prop: &str, tier: crate::registry::Tier, cfgs: Vec<Config>, w
         for t in 0..nthreads {
             if abandoned[t] || handles[t].is_finished() { continue }
             let s = slots[t].lock().unwrap();
-            if s.active && s.since.elapsed() > hang_after { abandoned[t] = true; hung.push((s.cfg, s.hist.clone())) }
+            // (the process must also have burnt CPU meanwhile: a stopped or starved process is not a hung operation)
+            if s.active && s.since.elapsed() > hang_after && crate::master::cpu_seconds() - s.cpu0 > hang_after.as_secs_f64() / 2.0 { abandoned[t] = true; hung.push((s.cfg, s.hist.clone())) }
         }
         if (0..nthreads).all(|t| abandoned[t] || handles[t].is_finished()) { break }
     }
